@@ -178,6 +178,7 @@ structure Mon where
   result : List (Nat × Int) := []
   closedSeen : Bool := false                -- external close / release
   pausedByUser : Bool := false
+  lcJudged : Nat := 0                       -- observation pairs judged by the life-cycle monitor
   missed : List (Nat × Nat) := []           -- id ↦ consecutive opens missed while seated-in with chips
   stayIn : List Nat := []                   -- ids dealt into the last hand who must be dealt into the next
   lastDealt : List Nat := []                -- ids dealt into the last hand that opened
@@ -331,6 +332,18 @@ def onObs (m : Mon) (label : String) (ok : Bool) (membership : Bool) (prev : Opt
     | some p => if label != "fire.opened" && label != "new" && !m.openedSince && o.gameBlind != p.gameBlind
                 then ["C12.published-hand-blinds-changed-without-an-open"] else []
     | none => []
+  -- C07: left to itself (no pause / close request so far) the status moves along the life cycle only — the conclusion of
+  -- `C07_life_cycle_step`, evaluated on the implementation's statuses wherever its hypothesis `Timely` holds of them
+  let lcTimely (p : Obs) : Bool :=
+    if label == "settle" then p.status == .playing
+    else if label.startsWith "continue" || label == "contreset" then p.status == .settled
+    else if label.startsWith "tick" then p.status == .standby || p.status == .pausing
+    else label != "pause" && label != "close" && label != "new" && label != "createjoin"
+  let lcOn : Bool := match prev with | some p => !m.closedSeen && !m.pausedByUser && lcTimely p | none => false
+  let v7lc : List String := match prev with
+    | some p => if lcOn && !(lcNext p.status o.status) then ["C07.status-left-the-life-cycle"] else []
+    | none => []
+  let m := if lcOn then { m with lcJudged := m.lcJudged + 1 } else m
   -- a table created on a break starts paused — with or without players
   let v12c : List String :=
     if (label == "new" || label == "createjoin") && ok && o.blind.isBreaking && o.status != .pausing
@@ -514,6 +527,6 @@ def onObs (m : Mon) (label : String) (ok : Bool) (membership : Bool) (prev : Opt
          then ["C12.hand-blinds-changed-while-the-hand-runs"] else [])
       else []
     | none => []
-  ({ m with openedSince := false }, v3 ++ v3a ++ v3b ++ v1 ++ v5r ++ v12g ++ v12c ++ vl ++ vh)
+  ({ m with openedSince := false }, v3 ++ v3a ++ v3b ++ v1 ++ v5r ++ v7lc ++ v12g ++ v12c ++ vl ++ vh)
 
 end TBSpec
